@@ -34,11 +34,11 @@ class Workdir:
     def __init__(self):
         os.makedirs(TMPROOT, exist_ok=True)
         self.d = tempfile.mkdtemp(prefix="kv%d_" % os.getpid(), dir=TMPROOT)
-        self.n = 0
+        import itertools
+        self.counter = itertools.count(1)     # next() on it is atomic: the valgrind/fuzz legs use threads
 
     def path(self, suffix=""):
-        self.n += 1
-        return os.path.join(self.d, "f%d%s" % (self.n, suffix))
+        return os.path.join(self.d, "f%d%s" % (next(self.counter), suffix))
 
     def write(self, data, suffix=""):
         p = self.path(suffix)
@@ -56,7 +56,6 @@ class Workdir:
                     os.unlink(p)
             except OSError:
                 pass
-        self.n = 0
 
     def close(self):
         shutil.rmtree(self.d, ignore_errors=True)
@@ -72,6 +71,43 @@ def workdir():
         import atexit
         atexit.register(_wd.close)
     return _wd
+
+
+def new_case():
+    """called by the engine before every case: scratch files of the previous case are dropped (tmpfs is RAM)"""
+    if _wd is not None and os.path.isdir(_wd.d) and _wd.d.startswith(os.path.join(TMPROOT, "kv%d_" % os.getpid())):
+        _wd.clear()
+
+
+def close_workdir():
+    global _wd
+    if _wd is not None:
+        _wd.close()
+        _wd = None
+
+
+def sweep_stale(max_age_s=6 * 3600):
+    """remove scratch directories of processes that no longer exist"""
+    import time
+    try:
+        ents = os.listdir(TMPROOT)
+    except OSError:
+        return
+    for e in ents:
+        if not e.startswith("kv"):
+            continue
+        try:
+            pid = int(e[2:].split("_")[0])
+        except ValueError:
+            continue
+        p = os.path.join(TMPROOT, e)
+        alive = os.path.exists("/proc/%d" % pid)
+        try:
+            old = time.time() - os.path.getmtime(p) > max_age_s
+        except OSError:
+            continue
+        if not alive or old:
+            shutil.rmtree(p, ignore_errors=True)
 
 
 def _limits(cpu):
